@@ -12,7 +12,7 @@ MAP = {
  "e63d1f3": "C20", "312f9d2": "C20", "3cf9f9a": "C11", "5da27eb": "C11", "e7298b9": "C11", "720c038": "C06", "c83ff03": "C11", "46ed363": "C11",
  "f9d28a4": "C11", "dd3ac36": "C11", "c6ad05f": "C11", "1c53ae6": "C11", "57a1176": "C12",
  "233885c": "C11", "dcc8f47": "C11", "efda6c3": "C11", "6a565f2": "C11", "49f5baa": "C05", "74321d3": "C03", "fc6e368": "C08", "1766845": "C13", "457d423": "C09", "70f516a": "C20",
- "35a91bf": "C15", "7e52a3e": "C15", "ddbf87d": "C19", "61602a7": "C11",
+ "35a91bf": "C15", "7e52a3e": "C15", "ddbf87d": "C19", "61602a7": "C11", "e0ed690": "C11", "992883a": "C11",
 }
 VERIF = os.path.dirname(os.path.dirname(os.path.abspath(__file__)))
 commits = sys.argv[1:] or list(MAP)
